@@ -13,4 +13,5 @@ package unlocker
 //@   requires (and (not (nil? l)) (not (nil? (. l PrivateKey))) (not (nil? tx)))
 //@   requires (spec.inputs_nonnil tx) (spec.out_scripts_nonnil tx) (spec.outputs_nonnil tx)
 //@   requires (< (. params InputIdx) (len (. tx Inputs)))
+//@   ensures[C04.signs_requested_digest] (=> (= err nil) (= (bytes r0) (spec.p2pkh_unlock (sigser (sig_of (. l PrivateKey) (digest_of tx (. params InputIdx) (spec.eff_flag (. params SigHashFlags))))) (spec.eff_flag (. params SigHashFlags)) (pkser (pub_of (. l PrivateKey))))))
 //@   ensures[C04.signs_forkid_digest] (=> (and (= err nil) (= (mod (div (spec.eff_flag (. params SigHashFlags)) 64) 2) 1)) (= (bytes r0) (spec.p2pkh_unlock (sigser (sig_of (. l PrivateKey) (bsha256d (old (spec.preimage143 tx (. params InputIdx) (spec.eff_flag (. params SigHashFlags))))))) (spec.eff_flag (. params SigHashFlags)) (pkser (pub_of (. l PrivateKey))))))
